@@ -62,6 +62,8 @@ Section embed.
     { eexists _, _, _, _. split; [reflexivity|]. cbn. repeat split; auto; discriminate. }
     match goal with |- context [if ?b then (_, V_OUT, trig_of c a, _) else _] => destruct b end.
     { eexists _, _, _, _. split; [reflexivity|]. cbn. repeat split; auto; discriminate. }
+    match goal with |- context [if ?b then (_, V_OUT, trig_of c a, _) else _] => destruct b end.
+    { eexists _, _, _, _. split; [reflexivity|]. cbn. repeat split; auto; discriminate. }
     eexists _, _, _, _. split; [reflexivity|]. cbn. repeat split; auto; discriminate.
   Qed.
 
